@@ -1,40 +1,158 @@
 /-
-Executable model of `octave_mcp/core/constraints.py` (transcription of the code that exists).
-Kinds modelled so far: REQ, OPT, CONST, ENUM.  Every other kind is `other` and makes the driver
-answer `unsupported` (never a guessed verdict).
+Executable model of `octave_mcp/core/constraints.py` (transcription of the code that exists):
+the fifteen constraint classes' `evaluate`, `_parse_atom`, `ConstraintChain._split_parts`, `.parse`,
+`.evaluate`, `.detect_conflicts`.
+
+External behaviour is a parameter (`Env`), supplied per case by the harness from the real runtime:
+  * `reMatch p s`   — `re.compile(p).match(s) is not None`
+  * `reOk p`        — `re.compile(p)` does not raise
+  * `floatRepr s`   — `repr(float(s))` for a numeral `s` that `_parse_atom` turns into a float
 -/
 import Octave.Model.Value
+import Octave.Model.Date
+import Octave.Gen.Constraints
 namespace Octave
 open PyVal (pyEq pyStr)
 
+structure Env where
+  reMatch : Str → Str → Bool
+  reOk : Str → Bool
+  floatRepr : Str → Str
+
+/-- A constraint object after construction (`__post_init__` applied). -/
 inductive Constraint where
   | req
   | opt
   | const (v : PyVal)
-  | enum (allowed : List Str)     -- after `__post_init__`: every allowed value is a `str`
+  | enum (allowed : List Str)        -- after `__post_init__`: every allowed value is a `str`
+  | type (t : Str)
+  | regex (pat : Str)
+  | dir
+  | appendOnly
+  | range (lo hi : FVal)             -- `min_value`, `max_value` (int | float) by exact value
+  | maxLength (n : Int)
+  | minLength (n : Int)
+  | date
+  | iso8601
+  | literal
+  | lang (tag : Str)                 -- after `__post_init__`: lower-cased
   deriving Repr, Inhabited
 
-/-- Outcome of one `evaluate`: `none` = valid, `some code` = the single error's code. -/
-abbrev Verdict := Option String
+/-- Outcome of one `evaluate`: accepted, one error with a code, or an exception escaping. -/
+inductive Verdict where
+  | ok
+  | fail (code : String)
+  | raise (exc : String)
+  deriving Repr, DecidableEq, Inhabited
 
 namespace Constraint
+
+/-- `RequiredConstraint.evaluate`: `value is None or value == ""`. -/
+def evalReq (v : PyVal) : Verdict :=
+  if (match v with | .null => true | _ => false) || pyEq v (.str []) then .fail "E003" else .ok
+
+/-- `ConstConstraint.evaluate`: `value != self.const_value`. -/
+def evalConst (c v : PyVal) : Verdict := if !(pyEq v c) then .fail "E004" else .ok
 
 /-- `EnumConstraint.evaluate`. -/
 def evalEnum (allowed : List Str) (v : PyVal) : Verdict :=
   let s := v.pyStr
-  if allowed.contains s then none
+  if allowed.contains s then .ok
   else
     let matches_ := allowed.filter (fun a => s.isPrefixOf a)
-    if matches_.length == 0 then some "E005"
-    else if matches_.length > 1 then some "E006"
-    else none
+    if matches_.length == 0 then .fail "E005"
+    else if matches_.length > 1 then .fail "E006"
+    else .ok
+
+/-- `isinstance(value, type_map[t])`; `none` = `t` is not a key of `type_map`. -/
+def typeTest (t : Str) (v : PyVal) : Option Bool :=
+  if t == "STRING".toList then some v.isStr
+  else if t == "NUMBER".toList then some (v.isIntInst || v.isFloatInst)
+  else if t == "BOOLEAN".toList then some v.isBool
+  else if t == "LIST".toList then some v.isList
+  else none
+
+/-- `TypeConstraint.evaluate`. -/
+def evalType (t : Str) (v : PyVal) : Verdict :=
+  match typeTest t v with
+  | none => .fail "E999"
+  | some inst =>
+    if t == "NUMBER".toList && v.isBool then .fail "E007"
+    else if !inst then .fail "E007"
+    else .ok
+
+/-- `RegexConstraint.evaluate` (`self._compiled` is always a compiled pattern: construction raises otherwise). -/
+def evalRegex (env : Env) (p : Str) (v : PyVal) : Verdict :=
+  if !(env.reMatch p v.pyStr) then .fail "E008" else .ok
+
+/-- `DirConstraint.evaluate`. -/
+def evalDir (v : PyVal) : Verdict := if v.pyStr.contains '\x00' then .fail "E009" else .ok
+
+/-- `AppendOnlyConstraint.evaluate`. -/
+def evalAppendOnly (v : PyVal) : Verdict := if !v.isList then .fail "E010" else .ok
+
+/-- `RangeConstraint.evaluate`. -/
+def evalRange (lo hi : FVal) (v : PyVal) : Verdict :=
+  if v.isBool then .fail "E011"
+  else match v.toFloat with
+    | .valueOrTypeError => .fail "E011"
+    | .overflowError => .raise "OverflowError"
+    | .ok x => if x.lt lo || x.gt hi then .fail "E011" else .ok
+
+/-- `MaxLengthConstraint.evaluate`. -/
+def evalMaxLength (n : Int) (v : PyVal) : Verdict :=
+  match v.len? with
+  | none => .fail "E012"
+  | some l => if (l : Int) > n then .fail "E012" else .ok
+
+/-- `MinLengthConstraint.evaluate`. -/
+def evalMinLength (n : Int) (v : PyVal) : Verdict :=
+  match v.len? with
+  | none => .fail "E013"
+  | some l => if (l : Int) < n then .fail "E013" else .ok
+
+/-- `DateConstraint.evaluate`. -/
+def evalDate (v : PyVal) : Verdict :=
+  let s := v.pyStr
+  if !reDateMatch s then .fail "E014"
+  else if Iso.fromIso s then .ok else .fail "E014"
+
+/-- `Iso8601Constraint.evaluate`. -/
+def evalIso8601 (v : PyVal) : Verdict :=
+  if Iso.fromIso (replaceZ v.pyStr) then .ok else .fail "E015"
+
+/-- `LiteralConstraint.evaluate`. -/
+def evalLiteral (v : PyVal) : Verdict := if !v.isZone then .fail "E007" else .ok
+
+/-- `LangConstraint.evaluate` (`.lower()` on ASCII). -/
+def evalLang (tag : Str) (v : PyVal) : Verdict :=
+  match v with
+  | .zone _ t _ =>
+    match t with
+    | none => .fail "E007"
+    | some t =>
+      if t == [] then .fail "E007"
+      else if asciiLower t != tag then .fail "E007"
+      else .ok
+  | _ => .fail "E007"
 
 /-- `*.evaluate(value)`. -/
-def eval : Constraint → PyVal → Verdict
-  | req, v => if pyEq v PyVal.null || pyEq v (PyVal.str []) then some "E003" else none
-  | opt, _ => none
-  | const c, v => if !(pyEq v c) then some "E004" else none
+def eval (env : Env) : Constraint → PyVal → Verdict
+  | req, v => evalReq v
+  | opt, _ => .ok
+  | const c, v => evalConst c v
   | enum a, v => evalEnum a v
+  | type t, v => evalType t v
+  | regex p, v => evalRegex env p v
+  | dir, v => evalDir v
+  | appendOnly, v => evalAppendOnly v
+  | range lo hi, v => evalRange lo hi v
+  | maxLength n, v => evalMaxLength n v
+  | minLength n, v => evalMinLength n v
+  | date, v => evalDate v
+  | iso8601, v => evalIso8601 v
+  | literal, v => evalLiteral v
+  | lang t, v => evalLang t v
 
 def isReq : Constraint → Bool | req => true | _ => false
 def isOpt : Constraint → Bool | opt => true | _ => false
@@ -68,21 +186,157 @@ def detectConflicts (cs : List Constraint) : List Conflict :=
   ++ adjacentDiffs consts 0
   ++ enumConstConflicts enums consts
 
-/-- first failing member, left to right (`for constraint in self.constraints: … return result`). -/
-def firstFailure : List Constraint → PyVal → Verdict
-  | [], _ => none
-  | c :: cs, v => match c.eval v with
-    | some e => some e
-    | none => firstFailure cs v
+/-- first member that does not accept, left to right (`for constraint in self.constraints: … return result`;
+an exception propagates from the member that raises it). -/
+def firstFailure (env : Env) : List Constraint → PyVal → Verdict
+  | [], _ => .ok
+  | c :: cs, v => match c.eval env v with
+    | .ok => firstFailure env cs v
+    | r => r
 
-/-- `ConstraintChain.evaluate`: list of error codes (empty = valid). -/
-def evalChain (cs : List Constraint) (v : PyVal) : List String :=
+/-- Result of `ConstraintChain.evaluate`: the error codes (empty = valid) or an escaping exception. -/
+inductive ChainResult where
+  | errors (codes : List String)
+  | raised (exc : String)
+  deriving Repr, DecidableEq
+
+/-- `ConstraintChain.evaluate`. -/
+def evalChain (env : Env) (cs : List Constraint) (v : PyVal) : ChainResult :=
   let conflicts := detectConflicts cs
-  if !conflicts.isEmpty then conflicts.map (fun _ => "E999")
-  else match firstFailure cs v with
-    | some e => [e]
-    | none => []
+  if !conflicts.isEmpty then .errors (conflicts.map (fun _ => "E999"))
+  else match firstFailure env cs v with
+    | .ok => .errors []
+    | .fail e => .errors [e]
+    | .raise x => .raised x
 
-def chainValid (cs : List Constraint) (v : PyVal) : Bool := (evalChain cs v).isEmpty
+/-- `ConstraintChain.evaluate(v).valid`. -/
+def chainValid (env : Env) (cs : List Constraint) (v : PyVal) : Bool :=
+  match evalChain env cs v with
+  | .errors [] => true
+  | _ => false
+
+/-! ### `_parse_atom`, `_split_parts`, `ConstraintChain.parse` -/
+
+/-- `s.replace(old, new)` for a two-character `old` = `[a, b]`. -/
+def replace2 (a b : Char) (new : Str) : Str → Str
+  | [] => []
+  | [c] => [c]
+  | c :: d :: rest => if c == a && d == b then new ++ replace2 a b new rest else c :: replace2 a b new (d :: rest)
+
+/-- Python `s[a:-1]` for `a ≤ len`. -/
+def sliceInner (a : Nat) (s : Str) : Str := s.dropLast.drop a
+
+def startsWith (p s : Str) : Bool := p.isPrefixOf s
+def endsWith (p s : Str) : Bool := p.reverse.isPrefixOf s.reverse
+
+/-- `_parse_atom`. -/
+def parseAtom (env : Env) (s0 : Str) : PyVal :=
+  let s := pyStrip s0
+  if (startsWith ['"'] s && endsWith ['"'] s) || (startsWith ['\''] s && endsWith ['\''] s) then
+    .str (replace2 '\\' '\\' ['\\'] (replace2 '\\' '\'' ['\''] (replace2 '\\' '"' ['"'] (sliceInner 1 s))))
+  else if s == "true".toList then .bool true
+  else if s == "false".toList then .bool false
+  else if s == "null".toList then .null
+  else if !s.contains '.' && !s.contains 'e' && !s.contains 'E' then
+    match pyIntOfStr s with
+    | some i => .int i
+    | none => .str s
+  else
+    match pyFloatOfStr s with
+    | some x => .float (env.floatRepr s) x
+    | none => .str s
+
+/-- `str.split(sep)` on a single character. -/
+def splitOn (sep : Char) : Str → List Str
+  | [] => [[]]
+  | c :: cs =>
+    if c == sep then [] :: splitOn sep cs
+    else match splitOn sep cs with
+      | [] => [[c]]          -- unreachable
+      | x :: xs => (c :: x) :: xs
+
+/-- the space-separated scan of `_split_parts`: `(tokens so far reversed, current reversed, depth)`. -/
+def scanParts : Str → List Str → Str → Int → List Str
+  | [], toks, cur, _ =>
+    let t := pyStrip cur.reverse
+    (if t.isEmpty then toks else t :: toks).reverse
+  | ch :: rest, toks, cur, depth =>
+    if ch == '[' || ch == '(' then scanParts rest toks (ch :: cur) (depth + 1)
+    else if ch == ']' || ch == ')' then scanParts rest toks (ch :: cur) (depth - 1)
+    else if ch == ' ' && depth == 0 then
+      let t := pyStrip cur.reverse
+      scanParts rest (if t.isEmpty then toks else t :: toks) [] depth
+    else scanParts rest toks (ch :: cur) depth
+
+/-- `ConstraintChain._split_parts`. -/
+def splitParts (s : Str) : List Str :=
+  if s.contains '∧' then ((splitOn '∧' s).map pyStrip).filter (fun p => !p.isEmpty)
+  else scanParts s [] [] 0
+
+/-- `str.split(",", 1)`: `none` when there is no comma (the tuple unpacking raises). -/
+def splitFirstComma : Str → Option (Str × Str)
+  | [] => none
+  | c :: cs =>
+    if c == ',' then some ([], cs)
+    else (splitFirstComma cs).map fun (a, b) => (c :: a, b)
+
+/-- `isinstance(x, int | float)` numeric view for RANGE bounds. -/
+def rangeBound? (v : PyVal) : Option FVal :=
+  if v.isIntInst || v.isFloatInst then v.num? else none
+
+/-- construct the object of class `cls` from the argument text (`part[k:-1]`); `none` = `ValueError`. -/
+def construct (env : Env) (cls : String) (arg : Str) : Option Constraint :=
+  match cls with
+  | "RequiredConstraint" => some .req
+  | "OptionalConstraint" => some .opt
+  | "DirConstraint" => some .dir
+  | "AppendOnlyConstraint" => some .appendOnly
+  | "DateConstraint" => some .date
+  | "Iso8601Constraint" => some .iso8601
+  | "LiteralConstraint" => some .literal
+  | "LangConstraint" => if (pyStrip arg).isEmpty then none else some (.lang (asciiLower arg))
+  | "ConstConstraint" => some (.const (parseAtom env arg))
+  | "EnumConstraint" => some (.enum ((splitOn ',' arg).map fun v => (parseAtom env (pyStrip v)).pyStr))
+  | "TypeConstraint" => some (.type arg)
+  | "RegexConstraint" =>
+    let p := if startsWith ['"'] arg && endsWith ['"'] arg then sliceInner 1 arg else arg
+    if env.reOk p then some (.regex p) else none
+  | "RangeConstraint" =>
+    match splitFirstComma arg with
+    | none => none
+    | some (a, b) =>
+      match rangeBound? (parseAtom env (pyStrip a)), rangeBound? (parseAtom env (pyStrip b)) with
+      | some lo, some hi => if lo.gt hi then none else some (.range lo hi)
+      | _, _ => none
+  | "MaxLengthConstraint" =>
+    match parseAtom env (pyStrip arg) with
+    | .int i => if i < 0 then none else some (.maxLength i)
+    | .bool b => some (.maxLength (if b then 1 else 0))
+    | _ => none
+  | "MinLengthConstraint" =>
+    match parseAtom env (pyStrip arg) with
+    | .int i => if i < 0 then none else some (.minLength i)
+    | .bool b => some (.minLength (if b then 1 else 0))
+    | _ => none
+  | _ => none
+
+/-- one `part` through the if/elif dispatch (`Gen.parseDispatch`, source order). -/
+def parsePart (env : Env) (part : Str) : List (String × String × String × String × Nat) → Option Constraint
+  | [] => none                       -- final `else`: raise ValueError
+  | (kind, kw, close, cls, lo) :: rest =>
+    let hit := if kind == "eq" then part == kw.toList
+               else startsWith kw.toList part && endsWith close.toList part
+    if hit then construct env cls (if kind == "eq" then [] else sliceInner lo part)
+    else parsePart env part rest
+
+def parseParts (env : Env) : List Str → Option (List Constraint)
+  | [] => some []
+  | p :: ps =>
+    match parsePart env (pyStrip p) Gen.parseDispatch with
+    | none => none
+    | some c => (parseParts env ps).map (c :: ·)
+
+/-- `ConstraintChain.parse`: `none` = `ValueError`. -/
+def parseChain (env : Env) (s : Str) : Option (List Constraint) := parseParts env (splitParts s)
 
 end Octave
